@@ -567,6 +567,9 @@ func (vc *VC) contractCall(fr *Frame, st *State, callee *ssa.Function, cc *FuncC
 			}
 			continue
 		}
+		if cc.LocalEns[i] {
+			continue
+		}
 		t, err := vc.specBoolAt(cf, st, pre, e, nil)
 		if err != nil {
 			vc.unsupportedf("ensures %d of %s at call from %s: %v", i+1, cc.Key, fr.fn.Name(), err)
